@@ -5,6 +5,7 @@ import (
 	"errors"
 	"net"
 	"net/http"
+	"net/textproto"
 	"strings"
 
 	"github.com/fabiolb/fabio/config"
@@ -131,7 +132,59 @@ func addHeaders(r *http.Request, cfg config.Proxy, stripPath string) error {
 		}
 	}
 
+	protectManagedHeaders(r, cfg)
+
 	return nil
+}
+
+// managedHeaders are the request headers addHeaders maintains
+// in addition to the configurable ones.
+var managedHeaders = []string{
+	"Forwarded",
+	"X-Forwarded-For",
+	"X-Forwarded-Host",
+	"X-Forwarded-Port",
+	"X-Forwarded-Prefix",
+	"X-Forwarded-Proto",
+	"X-Real-Ip",
+}
+
+// protectManagedHeaders removes the names of the headers fabio maintains
+// from the client's Connection header. The reverse proxy deletes every
+// header listed there as hop-by-hop, which would allow a client to strip
+// e.g. the TLS or the client ip header from the upstream request.
+// All other connection tokens are left untouched.
+func protectManagedHeaders(r *http.Request, cfg config.Proxy) {
+	conn, ok := r.Header["Connection"]
+	if !ok {
+		return
+	}
+	managed := map[string]bool{}
+	for _, h := range managedHeaders {
+		managed[h] = true
+	}
+	for _, h := range []string{cfg.ClientIPHeader, cfg.TLSHeader, cfg.RequestID} {
+		if h != "" {
+			managed[http.CanonicalHeaderKey(h)] = true
+		}
+	}
+	var keep []string
+	for _, v := range conn {
+		var toks []string
+		for _, tok := range strings.Split(v, ",") {
+			if !managed[http.CanonicalHeaderKey(textproto.TrimString(tok))] {
+				toks = append(toks, tok)
+			}
+		}
+		if len(toks) > 0 {
+			keep = append(keep, strings.Join(toks, ","))
+		}
+	}
+	if len(keep) == 0 {
+		delete(r.Header, "Connection")
+		return
+	}
+	r.Header["Connection"] = keep
 }
 
 var tlsver = map[uint16]string{
